@@ -30,7 +30,7 @@ def one(entry):
             r = subprocess.run(['patch', '-R', '-p1', '-s', '--no-backup-if-mismatch'], input=diff, text=True, cwd=d, capture_output=True)
         if r.returncode != 0:
             return prop, commit, 'REVERT-FAILED', (r.stdout + r.stderr).strip().splitlines()[:2]
-        env = dict(env0, VERIF_REPO=d, VERIF_EVIDENCE_DIR=os.path.join(d, '_ev'), VERIF_REPORT_DIR=os.path.join(d, '_rp'))
+        env = dict(env0, VERIF_REPO=d, VERIF_EVIDENCE_DIR=os.path.join(d, '_ev'), VERIF_REPORT_DIR=os.path.join(d, '_rp'), VERIF_CACHE_DIR=os.path.join(d, '_cache'))
         r = subprocess.run(['./check', prop], cwd=V, capture_output=True, text=True, env=env, timeout=3000)
         rules = sorted(set(re.findall(r'^\s*violation: ([A-Z0-9]+)\|', r.stdout, re.M)))
         return prop, commit, 'exit=%d' % r.returncode, rules
